@@ -268,6 +268,30 @@ def check(chk):
     chk.rule('C02.date', 'Date computes its day number by floor division of the epoch seconds (shared with C34)')
     chk.borrow('C34', {'C34.datefmt': 'C02.date'}, 'a datetime before 1970 with a time of day is encoded as the following day')
 
+    # timestamp: the instant of a datetime is taken in UTC (utctimetuple converts an aware datetime); timetuple() - wall-clock fields - only for a
+    # value that has no utctimetuple (a date), i.e. inside the AttributeError arm
+    chk.rule('C02.instant', 'DateType.serialize: epoch seconds from calendar.timegm(v.utctimetuple()); timegm(v.timetuple()) only in the AttributeError arm (dates)')
+    from ..core import parent as _par2
+    dts = mod.func('DateType.serialize')
+    tcalls = [c for c in body_walk(dts) if isinstance(c, ast.Call) and src(c.func) == 'calendar.timegm' and c.args]
+    if not tcalls:
+        raise AnalysisError('DateType.serialize: calendar.timegm not found')
+    kinds = []
+    for c in tcalls:
+        a0 = c.args[0]
+        meth = a0.func.attr if isinstance(a0, ast.Call) and isinstance(a0.func, ast.Attribute) else None
+        in_attr_handler = False
+        p_ = _par2(c)
+        while p_ is not None and p_ is not dts:
+            if isinstance(p_, ast.ExceptHandler) and p_.type is not None and 'AttributeError' in src(p_.type):
+                in_attr_handler = True
+            p_ = _par2(p_)
+        kinds.append((meth, in_attr_handler))
+        good = meth == 'utctimetuple' or (meth == 'timetuple' and in_attr_handler)
+        chk.judge(good, 'C02.instant', c, 'DateType.serialize: timegm(%s)%s' % (src(a0), ' in the AttributeError arm' if in_attr_handler else ''),
+                  'the epoch seconds of a datetime are computed from %s: a timezone-aware datetime with a non-zero offset is encoded as another instant (off by its UTC offset)' % src(a0))
+    chk.judge(any(k == ('utctimetuple', False) for k in kinds), 'C02.instant', dts, 'the datetime arm uses utctimetuple()', 'no arm converts an aware datetime to UTC')
+
 
 
 def _eval_bl(folder, node, env):
